@@ -163,6 +163,19 @@ func (ctx *formatCtx) defineIdents(tok token.Token, exprs ...ast.Expr) {
 	}
 }
 
+// declared reports whether name, or its capitalized form (which XGo also looks up),
+// is declared by the program in the current scope.
+func (ctx *formatCtx) declared(name string) bool {
+	if _, o := ctx.scope.LookupParent(name, token.NoPos); o != nil {
+		return true
+	}
+	if c := name[0]; c >= 'a' && c <= 'z' {
+		_, o := ctx.scope.LookupParent(string(c-('a'-'A'))+name[1:], token.NoPos)
+		return o != nil
+	}
+	return false
+}
+
 func (ctx *formatCtx) enterBlock() *types.Scope {
 	old := ctx.scope
 	ctx.scope = types.NewScope(old, token.NoPos, token.NoPos, "")
@@ -178,6 +191,25 @@ func formatFile(file *ast.File) {
 	ctx := &formatCtx{
 		imports: make(map[string]*importCtx),
 		scope:   types.NewScope(nil, token.NoPos, token.NoPos, ""),
+	}
+	for _, decl := range file.Decls { // package-level names are in scope everywhere in the file
+		switch v := decl.(type) {
+		case *ast.FuncDecl:
+			if v.Recv == nil {
+				ctx.insert(v.Name.Name)
+			}
+		case *ast.GenDecl:
+			for _, item := range v.Specs {
+				switch spec := item.(type) {
+				case *ast.TypeSpec:
+					ctx.insert(spec.Name.Name)
+				case *ast.ValueSpec:
+					for _, name := range spec.Names {
+						ctx.insert(name.Name)
+					}
+				}
+			}
+		}
 	}
 	for _, decl := range file.Decls {
 		switch v := decl.(type) {
@@ -236,6 +268,7 @@ func formatGenDecl(ctx *formatCtx, v *ast.GenDecl) {
 		for _, item := range v.Specs {
 			spec := item.(*ast.TypeSpec)
 			formatType(ctx, spec.Type, &spec.Type)
+			ctx.insert(spec.Name.Name)
 		}
 	}
 }
